@@ -415,6 +415,16 @@ def pair_space(tier, seed):
                                  R=ragged_tables(('rid', 'k', 'rv'), palpha, 'R', 2, keyed, True),
                                  kw=[{'key': 'k', 'presorted': True},
                                      {'key': 'k', 'presorted': True, 'missing': MISS}])
+    # execution strategy x order-sensitive clauses: buffersize <= number of rows makes the internal sorts spill to
+    # chunk files; duplicate keys then lie in different chunks and differ in their id field, so lookupjoin's
+    # "first partner in right-table order" (and every multiset / key-order clause) is checked under every
+    # buffersize 1..n (None is the default of all other variants)
+    # (chunked sorts cost ~5 ms per join: left <=2 rows, right <=3 rows over {None,i1,s1}; a buffersize larger
+    # than both tables cannot spill and is skipped by the checks)
+    K3 = spaces.K3(seed)
+    V['buffersize'] = dict(L=_rect(('k', 'lid'), [0], key_tuples(K3, 2), 'L'),
+                           R=_rect(('k', 'rid'), [0], key_tuples(K3, 3), 'R'),
+                           kw=[{'key': 'k', 'buffersize': b} for b in (1, 2, 3)])
     # tuple-VALUED cells in a SINGLE key field (hashable, legal: e.g. a (year, week) period): one-element,
     # two-element, None-containing and empty tuples next to None / numbers / text; ordered element-wise
     KT = spaces.K4(seed) + [(r['i1'],), (r['i1'], r['i2']), (None, r['s1']), ()]
